@@ -1,6 +1,430 @@
-import EpsicModel.Sim
-/-! # C05 — predicted moments of dual-mode samples -/
+import EpsicProofs.Props.C01
+import Mathlib.Tactic.Linarith
+import Mathlib.Tactic.FinCases
+import Mathlib.Algebra.Order.Floor.Ring
+import Mathlib.Algebra.Order.Field.Basic
+import Mathlib.Data.Rat.Floor
+import Mathlib.Tactic.Positivity
+import Mathlib.Tactic.FieldSimp
+import Mathlib.Algebra.BigOperators.Intervals
+/-! # C05 — predicted moments of dual-mode samples equal the moments of what is generated
+
+* **superposed**: for any expectation functional with standard-normal moments of order ≤ 4 over the
+  eight deviates of one instance (`GaussE 8 K`), any polarizers that are roots of the two coherency
+  matrices and any joint law of the two unit-mean modulation factors with variances `vA`, `vB` and
+  covariance `κ` (`ModE`): the ensemble mean is `A + B` (`superposed_mean`) and the ensemble
+  covariance is exactly `Sim.superposedCov` — Eq. 42–43 with the intensity-covariance terms
+  (`inst_second`, `superposed_cov`); for `n` uncorrelated instances the prediction is that divided by
+  `n` (`superposed_cov_n`); the generator makes instance `i` from its own eight deviates
+  (`superposed_gen`).
+* **composite**: the generator sums exactly `n_A` instances of A and `n_B` of B while both modes draw
+  `max(n_A,n_B)` times (`composite_gen`); Eq. 59 for uncorrelated instances (`composite_cov_iid`); a mode
+  without instances contributes nothing and nothing is divided by zero (`composite_cov_noA`).
+* **disjoint**: law of total covariance = Eq. 39 (`disjoint_total_cov`); the whole sample comes from
+  the selected mode (`disjoint_gen`); the selection probability equals the fraction to the resolution of
+  the uniform source (`selection_probability`).
+* coherent combinations: decided on the implementation only (cubature × phase quadrature); no theorem. -/
+set_option linter.unusedSectionVars false
+set_option linter.unusedVariables false
+set_option linter.unusedSimpArgs false
+set_option linter.unusedTactic false
+set_option linter.unnecessarySeqFocus false
 namespace Epsic.C05
-open Epsic Epsic.Sim
-theorem current_composite_counts_repaired : currentCompositeCountsRepaired = true := rfl
+
+open Epsic Matrix Epsic.C01
+variable {K : Type} [Field K] [DecidableEq K] [CharZero K]
+
+def lo (i : Fin 4) : Fin 8 := ⟨i.val, by omega⟩
+def hi (i : Fin 4) : Fin 8 := ⟨i.val + 4, by omega⟩
+/-- the 4×8 matrix taking the eight deviates of one superposed instance (four for mode A, then four for
+mode B) to the real field vector of `√m_A e_A + √m_B e_B` (`rA = √m_A`, `rB = √m_B`) -/
+def T8 (PA PB : Jones K) (rA rB : K) : Matrix (Fin 4) (Fin 8) K := fun i j =>
+  if h : j.val < 4 then rA * Tmat PA i ⟨j.val, h⟩ else rB * Tmat PB i ⟨j.val - 4, by omega⟩
+
+def quadF8 (A : Matrix (Fin 8) (Fin 8) K) (x : Fin 8 → K) : K := x ⬝ᵥ (A *ᵥ x)
+theorem quadF8_eq_sum (A : Matrix (Fin 8) (Fin 8) K) (x : Fin 8 → K) :
+    quadF8 A x = ∑ i, ∑ j, A i j * (x i * x j) := by
+  simp only [quadF8, dotProduct, Matrix.mulVec, Finset.mul_sum]
+  apply Finset.sum_congr rfl; intro i _; apply Finset.sum_congr rfl; intro j _; ring
+theorem quadF_lin8 (A : Matrix (Fin 4) (Fin 4) K) (T : Matrix (Fin 4) (Fin 8) K) (g : Fin 8 → K) :
+    quadF A (T *ᵥ g) = quadF8 (Tᵀ * A * T) g := by
+  simp only [quadF, quadF8]
+  rw [Matrix.mulVec_mulVec, ← Matrix.mulVec_mulVec, Matrix.dotProduct_mulVec, Matrix.vecMul_mulVec,
+    ← Matrix.dotProduct_mulVec, Matrix.mulVec_mulVec]
+
+/-- one superposed instance: the field of A scaled by `rA` plus the field of B scaled by `rB` -/
+def instField (PA PB : Jones K) (rA rB : K) (g : Fin 8 → K) : Spinor K :=
+  Spinor.add (Spinor.smulR (Sim.getField PA (fun i => g (lo i))) rA) (Spinor.smulR (Sim.getField PB (fun i => g (hi i))) rB)
+
+theorem realField_inst (PA PB : Jones K) (rA rB : K) (g : Fin 8 → K) :
+    realField (instField PA PB rA rB g) = T8 PA PB rA rB *ᵥ g := by
+  funext i
+  have hA := congrFun (realField_getField PA (fun i => g (lo i))) 
+  have hB := congrFun (realField_getField PB (fun i => g (hi i)))
+  simp only [Matrix.mulVec, dotProduct, Fin.sum_univ_four] at hA hB
+  have e : realField (instField PA PB rA rB g) i
+      = rA * realField (Sim.getField PA (fun i => g (lo i))) i + rB * realField (Sim.getField PB (fun i => g (hi i))) i := by
+    fin_cases i <;> simp [realField, instField, Spinor.add, Spinor.smulR, epsic] <;> ring
+  rw [e, hA, hB]
+  simp only [Matrix.mulVec, dotProduct, Fin.sum_univ_eight, T8, lo, hi]
+  simp
+  ring
+
+theorem T8_TT (PA PB : Jones K) (rA rB : K) :
+    T8 PA PB rA rB * (T8 PA PB rA rB)ᵀ = (rA*rA) • (Tmat PA * (Tmat PA)ᵀ) + (rB*rB) • (Tmat PB * (Tmat PB)ᵀ) := by
+  funext i k
+  simp only [Matrix.mul_apply, Matrix.transpose_apply, Matrix.add_apply, Matrix.smul_apply, smul_eq_mul, Fin.sum_univ_eight,
+    Fin.sum_univ_four, T8]
+  simp
+  ring
+
+/-- the covariance of the real field vector of the superposition -/
+def W8 (SA SB : Stokes K) (rA rB : K) : Matrix (Fin 4) (Fin 4) K := (rA*rA) • Wmat SA + (rB*rB) • Wmat SB
+
+theorem T8_TT_W (PA PB : Jones K) (SA SB : Stokes K) (hA : IsRoot PA SA) (hB : IsRoot PB SB) (rA rB : K) :
+    T8 PA PB rA rB * (T8 PA PB rA rB)ᵀ = W8 SA SB rA rB := by
+  rw [T8_TT, TT_eq_W PA SA hA, TT_eq_W PB SB hB]; rfl
+
+theorem inst_quadratic (PA PB : Jones K) (rA rB : K) (g : Fin 8 → K) (k : Fin 4) :
+    Spinor.computeStokes (instField PA PB rA rB g) k = quadF8 ((T8 PA PB rA rB)ᵀ * sig k * T8 PA PB rA rB) g := by
+  rw [computeStokes_eq, realField_inst, quadF_lin8]
+
+theorem trace_sig_W8 (SA SB : Stokes K) (rA rB : K) (k : Fin 4) :
+    Matrix.trace (sig k * W8 SA SB rA rB) = rA*rA * SA k + rB*rB * SB k := by
+  simp only [W8, Matrix.mul_add, Matrix.mul_smul, Matrix.trace_add, Matrix.trace_smul, smul_eq_mul, trace_sig_W]
+
+theorem Wmat_add (S T : Stokes K) : Wmat (fun i => S i + T i) = Wmat S + Wmat T := by
+  funext i j; fin_cases i <;> fin_cases j <;> simp [Wmat] <;> ring
+theorem outer_add (S T : Stokes K) (k l : Fin 4) :
+    Minkowski.outer (fun i => S i + T i) (fun i => S i + T i) k l
+      = Minkowski.outer S S k l + Minkowski.outer S T k l + Minkowski.outer T S k l + Minkowski.outer T T k l := by
+  fin_cases k <;> fin_cases l <;> simp [Minkowski.outer, Minkowski.inner] <;> ring
+/-- the mixed fourth-moment traces are the two Minkowski outer products of the two means (by
+polarisation of the single-mode identity of C01) -/
+theorem trace_sig_W_sig_W_mixed (S T : Stokes K) (k l : Fin 4) :
+    2 * Matrix.trace (sig k * Wmat S * (sig l * Wmat T)) + 2 * Matrix.trace (sig k * Wmat T * (sig l * Wmat S))
+      = Minkowski.outer S T k l + Minkowski.outer T S k l := by
+  have h := trace_sig_W_sig_W (fun i => S i + T i) k l
+  rw [Wmat_add, outer_add] at h
+  have hS := trace_sig_W_sig_W S k l
+  have hT := trace_sig_W_sig_W T k l
+  simp only [Matrix.mul_add, Matrix.add_mul, Matrix.trace_add] at h
+  linear_combination h - hS - hT
+
+theorem sig_symm' (k : Fin 4) : (sig k : Matrix (Fin 4) (Fin 4) K)ᵀ = sig k := sig_symm k
+
+/-- conditional on the two amplitude factors: **mean of one superposed instance** -/
+theorem inst_mean (G : GaussE 8 K) (PA PB : Jones K) (SA SB : Stokes K) (hA : IsRoot PA SA) (hB : IsRoot PB SB) (rA rB : K) (k : Fin 4) :
+    G.E (fun g => Spinor.computeStokes (instField PA PB rA rB g) k) = rA*rA * SA k + rB*rB * SB k := by
+  simp only [inst_quadratic, quadF8_eq_sum]
+  rw [G.quad, Matrix.trace_mul_comm, ← Matrix.mul_assoc, T8_TT_W PA PB SA SB hA hB, Matrix.trace_mul_comm, trace_sig_W8]
+
+/-- conditional on the two amplitude factors: **second moments of one superposed instance** -/
+theorem inst_second (G : GaussE 8 K) (PA PB : Jones K) (SA SB : Stokes K) (hA : IsRoot PA SA) (hB : IsRoot PB SB) (rA rB : K) (k l : Fin 4) :
+    G.E (fun g => Spinor.computeStokes (instField PA PB rA rB g) k * Spinor.computeStokes (instField PA PB rA rB g) l)
+      = (rA*rA * SA k + rB*rB * SB k) * (rA*rA * SA l + rB*rB * SB l)
+        + (rA*rA)*(rA*rA) * Minkowski.outer SA SA k l + (rB*rB)*(rB*rB) * Minkowski.outer SB SB k l
+        + (rA*rA)*(rB*rB) * (Minkowski.outer SA SB k l + Minkowski.outer SB SA k l) := by
+  simp only [inst_quadratic, quadF8_eq_sum]
+  rw [G.quad_quad]
+  set T := T8 PA PB rA rB with hT
+  have hk : Matrix.trace (Tᵀ * sig k * T) = rA*rA * SA k + rB*rB * SB k := by
+    rw [Matrix.trace_mul_comm, ← Matrix.mul_assoc, T8_TT_W PA PB SA SB hA hB, Matrix.trace_mul_comm, trace_sig_W8]
+  have hl : Matrix.trace (Tᵀ * sig l * T) = rA*rA * SA l + rB*rB * SB l := by
+    rw [Matrix.trace_mul_comm, ← Matrix.mul_assoc, T8_TT_W PA PB SA SB hA hB, Matrix.trace_mul_comm, trace_sig_W8]
+  have hTr : (Tᵀ * sig l * T)ᵀ = Tᵀ * sig l * T := by
+    rw [Matrix.transpose_mul, Matrix.transpose_mul, Matrix.transpose_transpose, sig_symm, Matrix.mul_assoc]
+  have hkl : Matrix.trace (Tᵀ * sig k * T * (Tᵀ * sig l * T))
+      = Matrix.trace (sig k * W8 SA SB rA rB * (sig l * W8 SA SB rA rB)) := by
+    rw [← T8_TT_W PA PB SA SB hA hB rA rB]
+    calc Matrix.trace (Tᵀ * sig k * T * (Tᵀ * sig l * T))
+        = Matrix.trace (Tᵀ * (sig k * (T * Tᵀ) * (sig l * T))) := by
+          simp only [Matrix.mul_assoc]
+      _ = Matrix.trace (sig k * (T * Tᵀ) * (sig l * T) * Tᵀ) := Matrix.trace_mul_comm _ _
+      _ = Matrix.trace (sig k * (T * Tᵀ) * (sig l * (T * Tᵀ))) := by
+          simp only [Matrix.mul_assoc]
+  rw [hTr, hk, hl, hkl]
+  have hAA := trace_sig_W_sig_W SA k l
+  have hBB := trace_sig_W_sig_W SB k l
+  have hAB := trace_sig_W_sig_W_mixed SA SB k l
+  simp only [W8, Matrix.mul_add, Matrix.add_mul, Matrix.mul_smul, Matrix.smul_mul, Matrix.trace_add, Matrix.trace_smul, smul_eq_mul]
+  linear_combination ((rA*rA)*(rA*rA)) * hAA + ((rB*rB)*(rB*rB)) * hBB + ((rA*rA)*(rB*rB)) * hAB
+
+/-! ### the modulation factors -/
+/-- a linear expectation over the pair of modulation factors `(m_A, m_B)` with unit means, variances
+`vA`, `vB` and covariance `kappa` (what `covariant_coordinator` / independent modulators report) -/
+structure ModE (K : Type) [Field K] where
+  vA : K
+  vB : K
+  kappa : K
+  E : (K × K → K) → K
+  add : ∀ f g, E (fun m => f m + g m) = E f + E g
+  smul : ∀ (c : K) f, E (fun m => c * f m) = c * E f
+  mA : E (fun m => m.1) = 1
+  mB : E (fun m => m.2) = 1
+  mAA : E (fun m => m.1 * m.1) = 1 + vA
+  mBB : E (fun m => m.2 * m.2) = 1 + vB
+  mAB : E (fun m => m.1 * m.2) = 1 + kappa
+
+theorem ModE.quadratic (M : ModE K) (a b c : K) :
+    M.E (fun m => a * (m.1 * m.1) + b * (m.2 * m.2) + c * (m.1 * m.2)) = a * (1 + M.vA) + b * (1 + M.vB) + c * (1 + M.kappa) := by
+  rw [M.add, M.add, M.smul, M.smul, M.smul, M.mAA, M.mBB, M.mAB]
+theorem ModE.linear (M : ModE K) (a b : K) : M.E (fun m => a * m.1 + b * m.2) = a + b := by
+  rw [M.add, M.smul, M.smul, M.mA, M.mB]; ring
+
+/-- the theory of a (possibly modulated) mode with unit-mean modulation of variance `v` -/
+def modeTheory (S : Stokes K) (v : K) : Sim.ModeTheory K :=
+  ⟨S, Sim.modulatedCov (Sim.modeCov S) S 1 v, fun l => if l = 0 then Sim.modulatedCov (Sim.modeCov S) S 1 v else Mat.ofScalar 0⟩
+
+/-- the second moment of one superposed instance given the factors, as a polynomial in `(m_A, m_B)` -/
+def condSecond (SA SB : Stokes K) (k l : Fin 4) (m : K × K) : K :=
+  (m.1 * SA k + m.2 * SB k) * (m.1 * SA l + m.2 * SB l)
+    + m.1*m.1 * Minkowski.outer SA SA k l + m.2*m.2 * Minkowski.outer SB SB k l
+    + m.1*m.2 * (Minkowski.outer SA SB k l + Minkowski.outer SB SA k l)
+
+/-- `inst_second` in terms of the factors `m = r²` -/
+theorem inst_second_cond (G : GaussE 8 K) (PA PB : Jones K) (SA SB : Stokes K) (hA : IsRoot PA SA) (hB : IsRoot PB SB) (rA rB : K) (k l : Fin 4) :
+    G.E (fun g => Spinor.computeStokes (instField PA PB rA rB g) k * Spinor.computeStokes (instField PA PB rA rB g) l)
+      = condSecond SA SB k l (rA*rA, rB*rB) := by
+  rw [inst_second G PA PB SA SB hA hB]; simp only [condSecond]
+
+theorem outer_swap (a b : Stokes K) (i j : Fin 4) : Minkowski.outer a b i j = Minkowski.outer b a j i := by
+  fin_cases i <;> fin_cases j <;> simp [Minkowski.outer, Minkowski.inner] <;> ring
+
+/-- **ensemble mean of a superposed instance = predicted mean** (`superposed::get_mean`) -/
+theorem superposed_mean (M : ModE K) (SA SB : Stokes K) (k : Fin 4) :
+    M.E (fun m => m.1 * SA k + m.2 * SB k) = Sim.superposedMean (modeTheory SA M.vA) (modeTheory SB M.vB) k := by
+  have := M.linear (SA k) (SB k)
+  simp only [Sim.superposedMean, modeTheory]
+  rw [← this]; congr 1; funext m; ring
+
+/-- **ensemble covariance of a superposed instance = predicted covariance** (`superposed::get_covariance`,
+Eq. 42–43, sample size 1), for every pair of Stokes vectors, every pair of modulation variances and every
+intensity covariance -/
+theorem superposed_cov (M : ModE K) (SA SB : Stokes K) (k l : Fin 4) :
+    M.E (condSecond SA SB k l) - (SA k + SB k) * (SA l + SB l)
+      = Sim.superposedCov (modeTheory SA M.vA) (modeTheory SB M.vB) M.kappa 1 k l := by
+  have h : condSecond SA SB k l = fun m =>
+      (SA k * SA l + Minkowski.outer SA SA k l) * (m.1 * m.1) + (SB k * SB l + Minkowski.outer SB SB k l) * (m.2 * m.2)
+        + (SA k * SB l + SB k * SA l + (Minkowski.outer SA SB k l + Minkowski.outer SB SA k l)) * (m.1 * m.2) := by
+    funext m; simp only [condSecond]; ring
+  rw [h, M.quadratic]
+  simp only [Sim.superposedCov, Sim.sampleCovM, Sim.sampleCovEntry, Sim.nSqScalar, modeTheory, Sim.modulatedCov, Sim.modeCov, Sim.vouter,
+    List.range_zero, List.foldl_nil, ofNat_eq, one_eq, two_eq]
+  simp
+  rw [outer_swap SB SA k l]
+  ring
+
+/-! ### sample means of independent instances -/
+theorem foldl_zero_terms (l : List Nat) (f : Nat → K) (hf : ∀ k, f k = 0) (a : K) :
+    l.foldl (fun acc k => acc + f k) a = a := by
+  induction l generalizing a with
+  | nil => rfl
+  | cons x xs ih => simp [List.foldl_cons, hf x, ih]
+/-- for a mode whose instances are uncorrelated (zero cross-covariance at every non-zero lag) the
+covariance of the mean of `n` instances is the instance covariance divided by `n` -/
+theorem sampleCov_iid (c : K) (n : Nat) (hn : 0 < n) :
+    Sim.sampleCovEntry c (fun l => if l = 0 then c else 0) n (Sim.nSqScalar n) = c / n := by
+  have hn' : (n : K) ≠ 0 := by exact_mod_cast hn.ne'
+  simp only [Sim.sampleCovEntry, Sim.nSqScalar, ofNat_eq, two_eq]
+  rw [foldl_zero_terms _ (fun k => (if k + 1 = 0 then c else 0) * (2 * ((n - (k+1) : Nat) : K))) (by intro k; simp)]
+  field_simp
+theorem sampleCovM_iid (S : Stokes K) (v : K) (n : Nat) (hn : 0 < n) (k l : Fin 4) :
+    Sim.sampleCovM (modeTheory S v) n k l = (modeTheory S v).cov k l / n := by
+  simp only [Sim.sampleCovM, modeTheory]
+  have := sampleCov_iid (Sim.modulatedCov (Sim.modeCov S) S 1 v k l) n hn
+  convert this using 2
+  funext l'; by_cases h : l' = 0 <;> simp [h, Mat.ofScalar]
+
+/-- **superposed sample of `n` independent instances**: the predicted covariance is the one-instance
+covariance (which `superposed_cov` identifies with the ensemble covariance) divided by `n` -/
+theorem superposed_cov_n (SA SB : Stokes K) (vA vB kappa : K) (n : Nat) (hn : 0 < n) (k l : Fin 4) :
+    Sim.superposedCov (modeTheory SA vA) (modeTheory SB vB) kappa n k l
+      = Sim.superposedCov (modeTheory SA vA) (modeTheory SB vB) kappa 1 k l / n := by
+  have hn' : (n : K) ≠ 0 := by exact_mod_cast hn.ne'
+  simp only [Sim.superposedCov, sampleCovM_iid SA vA n hn, sampleCovM_iid SB vB n hn, sampleCovM_iid SA vA 1 Nat.one_pos,
+    sampleCovM_iid SB vB 1 Nat.one_pos, ofNat_eq, one_eq]
+  field_simp
+  ring
+
+/-! ### composite samples -/
+/-- **composite prediction (Eq. 59) for uncorrelated instances**: `(n_A C_A + n_B C_B)/n²` plus the
+intensity-covariance term over the `min(n_A,n_B)` lock-step pairs -/
+theorem composite_cov_iid (SA SB : Stokes K) (vA vB kappa : K) (nA n : Nat) (hA : 0 < nA) (hB : nA < n) (k l : Fin 4) :
+    Sim.compositeCov true (modeTheory SA vA) (modeTheory SB vB) kappa nA n k l
+      = ((nA : K) * (modeTheory SA vA).cov k l + ((n - nA : Nat) : K) * (modeTheory SB vB).cov k l
+          + ((min nA (n - nA) : Nat) : K) * kappa * (SA k * SB l + SA l * SB k)) / ((n : K) * n) := by
+  have hn' : (n : K) ≠ 0 := by have : 0 < n := by omega
+                               exact_mod_cast this.ne'
+  have hA' : (nA : K) ≠ 0 := by exact_mod_cast hA.ne'
+  have hBpos : 0 < n - nA := by omega
+  have hB' : ((n - nA : Nat) : K) ≠ 0 := by exact_mod_cast hBpos.ne'
+  have e1 : (nA == 0) = false := by simp; omega
+  have e2 : (n - nA == 0) = false := by simp; omega
+  simp only [Sim.compositeCov, e1, e2, Bool.and_false, Bool.false_eq_true, if_false, sampleCovM_iid SA vA nA hA, sampleCovM_iid SB vB (n - nA) hBpos,
+    ofNat_eq, Sim.vouter]
+  simp only [modeTheory]
+  field_simp
+  ring
+/-- a mode that contributes no instances contributes no covariance, and nothing is divided by zero -/
+theorem composite_cov_noA (a b : Sim.ModeTheory K) (kappa : K) (n : Nat) (hn : 0 < n) (k l : Fin 4) :
+    Sim.compositeCov true a b kappa 0 n k l = Sim.sampleCovM b n k l := by
+  have hn' : (n : K) ≠ 0 := by exact_mod_cast hn.ne'
+  have e2 : (n == 0) = false := by simp; omega
+  simp [Sim.compositeCov, e2, hn']
+theorem composite_mean_counts (a b : Sim.ModeTheory K) (nA n : Nat) (k : Fin 4) :
+    Sim.compositeMean a b nA n k = ((nA : K) * a.mean k + ((n - nA : Nat) : K) * b.mean k) / n := by
+  simp only [Sim.compositeMean, ofNat_eq]; ring
+
+/-! ### disjoint samples -/
+/-- **law of total covariance** for a sample that is entirely mode A with probability `f` and entirely
+mode B otherwise: second moment of the mixture minus the product of the mixture means is Eq. 39 -/
+theorem disjoint_total_cov (a b : Sim.ModeTheory K) (f : K) (n : Nat) (k l : Fin 4) :
+    (f * (Sim.sampleCovM a n k l + a.mean k * a.mean l) + (1 - f) * (Sim.sampleCovM b n k l + b.mean k * b.mean l))
+        - Sim.disjointMean a b f k * Sim.disjointMean a b f l
+      = Sim.disjointCov a b f n k l := by
+  simp only [Sim.disjointMean, Sim.disjointCov, Sim.vouter, one_eq]; ring
+/-- successive disjoint samples of modes with uncorrelated instances are uncorrelated: the predicted
+lagged cross-covariance vanishes -/
+theorem disjoint_xcov_iid (SA SB : Stokes K) (vA vB f : K) (lag : Nat) (hl : 0 < lag) (k l : Fin 4) :
+    Sim.disjointXCov (modeTheory SA vA) (modeTheory SB vB) f lag k l = 0 := by
+  simp [Sim.disjointXCov, modeTheory, hl.ne', Mat.ofScalar]
+
+/-! ### the uniform source of the disjoint selection -/
+
+/-- **selection probability to the resolution of the uniform source**: `random()` takes the `M+1`
+values `0 … M = RAND_MAX` with equal probability; the number of them with `random()/M < f` differs
+from `f (M+1)` by at most one, for every fraction `f` in `[0,1]` -/
+theorem selection_probability (f : ℚ) (M : ℕ) (hM : 0 < M) (h0 : 0 ≤ f) (h1 : f ≤ 1) :
+    |(((Finset.range (M+1)).filter (fun r : ℕ => (r:ℚ)/M < f)).card : ℚ) / (M+1) - f| ≤ 1 / (M+1) := by
+  have hMq : (0:ℚ) < M := by exact_mod_cast hM
+  have hfM : 0 ≤ f * M := mul_nonneg h0 hMq.le
+  have hceil : ⌈f * M⌉₊ ≤ M := by
+    apply Nat.ceil_le.mpr
+    calc f * M ≤ 1 * M := mul_le_mul_of_nonneg_right h1 hMq.le
+      _ = M := one_mul _
+  have hfilter : (Finset.range (M+1)).filter (fun r : ℕ => (r:ℚ)/M < f) = Finset.range ⌈f * M⌉₊ := by
+    ext r
+    simp only [Finset.mem_filter, Finset.mem_range]
+    constructor
+    · rintro ⟨_, h⟩
+      rw [div_lt_iff₀ hMq] at h
+      exact Nat.lt_ceil.mpr h
+    · intro h
+      refine ⟨by omega, ?_⟩
+      rw [div_lt_iff₀ hMq]
+      exact Nat.lt_ceil.mp h
+  rw [hfilter, Finset.card_range]
+  have hlo : f * M ≤ (⌈f * M⌉₊ : ℚ) := Nat.le_ceil _
+  have hhi : (⌈f * M⌉₊ : ℚ) < f * M + 1 := Nat.ceil_lt_add_one hfM
+  have hpos : (0:ℚ) < M + 1 := by positivity
+  rw [abs_le]
+  constructor
+  · rw [le_sub_iff_add_le, ← sub_eq_neg_add, le_div_iff₀ hpos, sub_mul]
+    have : 1 / ((M:ℚ) + 1) * (M + 1) = 1 := by field_simp
+    rw [this]; nlinarith
+  · rw [sub_le_iff_le_add, div_le_iff₀ hpos, add_mul]
+    have : 1 / ((M:ℚ) + 1) * (M + 1) = 1 := by field_simp
+    rw [this]; nlinarith
+
+/-! ### the generators on an explicit deviate stream -/
+
+open Finset
+
+/-- the block of four deviates starting at position `p` of the stream -/
+def block (devs : List K) (p : Nat) : Vec 4 K := (Sim.take4 (devs.drop p)).1
+
+section gen
+variable (field : Jones K → Vec 4 K → Spinor K) (pA pB : Jones K) (nA nB : Nat) (devs : List K)
+
+/-- instance `i` of mode A in a composite sample is made from deviates `8i … 8i+3`, of mode B from `8i+4 … 8i+7` -/
+def instA (i : Nat) : Stokes K := Spinor.computeStokes (field pA (block devs (8*i)))
+def instB (i : Nat) : Stokes K := Spinor.computeStokes (field pB (block devs (8*i + 4)))
+
+theorem drop4 (l : List K) : (Sim.take4 l).2 = l.drop 4 := rfl
+
+theorem composite_fold (m : Nat) :
+    (List.range m).foldl (Sim.compositeStep field pA pB nA nB) (Sim.stokesZero, devs, 0)
+      = ((fun k => ∑ i ∈ range m, ((if i < nA then instA field pA devs i k else 0) + (if i < nB then instB field pB devs i k else 0))),
+         devs.drop (8*m), 8*m) := by
+  induction m with
+  | zero => simp only [List.range_zero, List.foldl_nil, Finset.range_zero, Finset.sum_empty]; rfl
+  | succ m ih =>
+    rw [List.range_succ, List.foldl_append, ih]
+    simp only [List.foldl_cons, List.foldl_nil, Sim.compositeStep, drop4, List.drop_drop]
+    refine Prod.ext ?_ (Prod.ext ?_ ?_)
+    · funext k
+      simp only [Finset.sum_range_succ, instA, instB, block]
+      have e : 4 + 8 * m = 8 * m + 4 := by omega
+      by_cases ha : m < nA <;> by_cases hb : m < nB <;> simp [ha, hb, Sim.stokesAdd, e] <;> ring
+    · simp only; rw [show 8 * m + 4 + 4 = 8 * (m + 1) by omega]
+    · simp only; ring
+
+/-- **composite generator**: exactly `n_A` instances of A and `n_B` of B are summed, the two modes
+draw in lock-step `max(n_A,n_B)` times each (8 deviates per iteration), and the sum is divided by `n` -/
+theorem composite_gen (n : Nat) (k : Fin 4) :
+    (Sim.compositeGen field pA pB nA nB n devs).1 k
+        = ((∑ i ∈ range nA, instA field pA devs i k) + (∑ i ∈ range nB, instB field pB devs i k)) / n ∧
+    (Sim.compositeGen field pA pB nA nB n devs).2 = 8 * max nA nB := by
+  simp only [Sim.compositeGen, composite_fold field pA pB nA nB devs (max nA nB)]
+  refine ⟨?_, trivial⟩
+  simp only [Sim.stokesDivN, ofNat_eq, Finset.sum_add_distrib]
+  congr 1
+  congr 1
+  · rw [← Finset.sum_filter]
+    congr 1; ext i; simp only [mem_filter, mem_range]; omega
+  · rw [← Finset.sum_filter]
+    congr 1; ext i; simp only [mem_filter, mem_range]; omega
+
+/-- instance `i` of a superposed sample: fields of A (deviates `8i…8i+3`) and B (`8i+4…8i+7`) added before detection -/
+def instS (i : Nat) : Stokes K :=
+  Spinor.computeStokes (Spinor.add (field pA (block devs (8*i))) (field pB (block devs (8*i + 4))))
+theorem superposed_fold (m : Nat) :
+    (List.range m).foldl (Sim.superposedStep field pA pB) (Sim.stokesZero, devs, 0)
+      = ((fun k => ∑ i ∈ range m, instS field pA pB devs i k), devs.drop (8*m), 8*m) := by
+  induction m with
+  | zero => simp only [List.range_zero, List.foldl_nil, Finset.range_zero, Finset.sum_empty]; rfl
+  | succ m ih =>
+    rw [List.range_succ, List.foldl_append, ih]
+    simp only [List.foldl_cons, List.foldl_nil, Sim.superposedStep, drop4, List.drop_drop]
+    refine Prod.ext ?_ (Prod.ext ?_ ?_)
+    · funext k
+      have e : 4 + 8 * m = 8 * m + 4 := by omega
+      simp [Finset.sum_range_succ, instS, block, Sim.stokesAdd, e]
+    · simp only; rw [show 8 * m + 4 + 4 = 8 * (m + 1) by omega]
+    · simp only; ring
+/-- **superposed generator**: the sample is the mean of `n` instances, instance `i` made from its own
+eight deviates (so instances are functions of disjoint blocks of the stream) -/
+theorem superposed_gen (n : Nat) (k : Fin 4) :
+    (Sim.superposedGen field pA pB n devs).1 k = (∑ i ∈ range n, instS field pA pB devs i k) / n ∧
+    (Sim.superposedGen field pA pB n devs).2 = 8 * n := by
+  simp only [Sim.superposedGen, superposed_fold field pA pB devs n]
+  exact ⟨by simp [Sim.stokesDivN, ofNat_eq], trivial⟩
+
+def instD (p : Jones K) (i : Nat) : Stokes K := Spinor.computeStokes (field p (block devs (4*i)))
+theorem disjoint_fold (p : Jones K) (m : Nat) :
+    (List.range m).foldl (Sim.disjointStep field p) (Sim.stokesZero, devs, 0)
+      = ((fun k => ∑ i ∈ range m, instD field devs p i k), devs.drop (4*m), 4*m) := by
+  induction m with
+  | zero => simp only [List.range_zero, List.foldl_nil, Finset.range_zero, Finset.sum_empty]; rfl
+  | succ m ih =>
+    rw [List.range_succ, List.foldl_append, ih]
+    simp only [List.foldl_cons, List.foldl_nil, Sim.disjointStep, drop4, List.drop_drop]
+    refine Prod.ext ?_ (Prod.ext ?_ ?_)
+    · funext k
+      simp [Finset.sum_range_succ, instD, block, Sim.stokesAdd]
+    · simp only; rw [show 4 * m + 4 = 4 * (m + 1) by omega]
+    · simp only; ring
+/-- **disjoint generator**: the whole sample (all `n` instances, four deviates each) comes from the one
+selected mode -/
+theorem disjoint_gen (sel : Bool) (n : Nat) (k : Fin 4) :
+    (Sim.disjointGen field pA pB sel n devs).1 k = (∑ i ∈ range n, instD field devs (if sel then pA else pB) i k) / n ∧
+    (Sim.disjointGen field pA pB sel n devs).2 = 4 * n := by
+  simp only [Sim.disjointGen, disjoint_fold field devs _ n]
+  exact ⟨by simp [Sim.stokesDivN, ofNat_eq], trivial⟩
+end gen
+
+theorem current_repairs : Sim.currentCompositeCountsRepaired = true ∧ Sim.currentCompositeZeroGuard = true := ⟨rfl, rfl⟩
+/-- before the repair the generator's second count was `unsigned (n - fraction)`: for `n = 8`, fraction ¼ it is 7, not 6 -/
+example : Sim.compositeCountB false 2 8 7 = 7 ∧ Sim.compositeCountB true 2 8 7 = 6 := by decide
 end Epsic.C05
